@@ -74,6 +74,7 @@ func runC10(a *A) {
 	a.Rule("flow/late-policy", 2, func() {
 		a.ruleLatePolicy(a.Named("window", "SessionWindow"), a.Method("window", "SessionWindow", "Add"))
 	})
+	a.Rule("flow/late-row-own-group", 2, func() { a.ruleLateRowOwnGroup() })
 	a.Rule("ordtab/gap-split", 1, func() { a.ruleGapSplit() })
 	a.Rule("locks/guarded-by", 5, func() { a.lockRules("window", "SessionWindow") })
 }
@@ -158,4 +159,96 @@ func (a *A) ruleGapSplit() {
 		func(r map[string]int, _ map[string]bool) bool { return r["ts"] <= r["E"] })
 	_ = token.NoPos
 	_ = types.Typ
+}
+
+// ruleLateRowOwnGroup: with ALLOWEDLATENESS a late row may update a session that has already been
+// delivered — but only a session of its own group, and every delivered session has to stay findable
+// until its allowance ends:
+//  (a) in handleLateData the append of the row to a fired session is guarded by a comparison that
+//      involves the row's group key (extractSessionCompositeKey of the row);
+//  (b) the key under which a fired session is stored in triggeredSessions involves a counter unique to
+//      the firing (else the group's next fired session overwrites one that is still open).
+func (a *A) ruleLateRowOwnGroup() {
+	W := a.Named("window", "SessionWindow")
+	h := a.Method("window", "SessionWindow", "handleLateData")
+	keyFn := a.Func("window", "extractSessionCompositeKey")
+	// (a)
+	fromRowKey := func(v ssa.Value) bool {
+		for x := range backwardSlice(v, 6) {
+			if c, ok := x.(*ssa.Call); ok && c.Call.StaticCallee() == keyFn {
+				return true
+			}
+		}
+		return false
+	}
+	n := 0
+	allInstrs(h, func(in ssa.Instruction) {
+		c, ok := in.(*ssa.Call)
+		if !ok {
+			return
+		}
+		if _, isApp := isBuiltinCall(c, "append"); !isApp {
+			return
+		}
+		n++
+		ok2 := false
+		for _, g := range guardsOf(c.Block()) {
+			if bo, isB := g.Cond.(*ssa.BinOp); isB && (bo.Op == token.EQL || bo.Op == token.NEQ) && (fromRowKey(bo.X) || fromRowKey(bo.Y)) {
+				ok2 = true
+			}
+		}
+		a.Check(ok2, fname(h)+"#own-group", c.Pos(), "a late row is appended to a fired session only after its group key was compared with the session's",
+			"a late row is appended to the first fired session whose bounds contain its timestamp, whatever group it belongs to: device B's late row re-delivers device A's session")
+	})
+	if n == 0 {
+		a.Und(fname(h)+"#own-group", h.Pos(), "no append found in handleLateData")
+	}
+	// (b)
+	trig := a.FieldOf(W, "triggeredSessions")
+	seq := a.FieldOf(W, "parkedSeq")
+	m := 0
+	for _, fn := range a.ModFuncs {
+		allInstrs(fn, func(in ssa.Instruction) {
+			mu, ok := in.(*ssa.MapUpdate)
+			if !ok {
+				return
+			}
+			if t := TermOf(mu.Map, nil); t.Kind != "field" || t.Field != trig {
+				return
+			}
+			m++
+			unique := false
+			for x := range backwardSlice(mu.Key, 8) {
+				if t := TermOf(x, nil); t.Kind == "field" && t.Field == seq {
+					unique = true
+				}
+			}
+			a.Check(unique, fname(fn)+"#fired-session-key-unique", mu.Pos(), "each fired session is stored under a key numbered by the firing",
+				"a fired session is stored under "+TermOf(mu.Key, nil).String()+", which is the same for every session of the group: the next fired session of the group evicts one that is still open for late rows")
+		})
+	}
+	if m == 0 {
+		a.Und("triggeredSessions#fired-session-key-unique", token.NoPos, "no store into triggeredSessions found")
+	}
+}
+
+// backwardSlice: the values v is computed from (operands, transitively, bounded depth).
+func backwardSlice(v ssa.Value, depth int) map[ssa.Value]bool {
+	out := map[ssa.Value]bool{}
+	var walk func(x ssa.Value, d int)
+	walk = func(x ssa.Value, d int) {
+		if x == nil || out[x] || d > depth {
+			return
+		}
+		out[x] = true
+		if in, ok := x.(ssa.Instruction); ok {
+			for _, op := range in.Operands(nil) {
+				if *op != nil {
+					walk(*op, d+1)
+				}
+			}
+		}
+	}
+	walk(v, 0)
+	return out
 }
